@@ -163,7 +163,11 @@ pub fn fix_ecdata_from_extra<T: AsRef<Path>>(
             if e.bounds != BoundaryType::INTERIOR {
                 continue;
             };
-            let w = tbldata.elements.get(e.name.as_str()).unwrap();
+            // Los elementos que no aparecen en el .tbl conservan su valor calculado (como con el .kyg)
+            let w = match tbldata.elements.get(e.name.as_str()) {
+                Some(w) => w,
+                None => continue,
+            };
             let u_value_override = fround2(w.u);
             e.u = u_value_override;
 
